@@ -701,7 +701,7 @@ pub fn run(scn: &PnmScenario, record: bool) -> RunResult {
     let streamed = catch(|| drive_reader(scn.reader.stack, src, ReadPnm));
     let delivered = core.borrow().pos;
     let ledger = log.borrow().ledger.clone();
-    let (rd_err, eof_stop, eof_resumed) = (ledger.get(K::read_err) + ledger.get(K::read_err_after_eof), ledger.get(K::early_eof), ledger.get(K::early_eof_resumed));
+    let (rd_err, eof_stop, eof_resumed) = (ledger.get(K::read_err) + ledger.get(K::read_err_after_eof) + ledger.get(K::open_err), ledger.get(K::early_eof), ledger.get(K::early_eof_resumed));
     let clean_stream = rd_err + eof_stop + eof_resumed == 0;
     let streamed_out = match streamed {
         Ok(r) => {
@@ -1058,6 +1058,9 @@ pub fn shrink(s: &PnmScenario) -> Vec<PnmScenario> {
         }
         if wr.flush_err.is_some() {
             out.push(PnmScenario { writer: WriterCfg { flush_err: None, ..wr.clone() }, ..s.clone() });
+        }
+        if wr.create_err.is_some() {
+            out.push(PnmScenario { writer: WriterCfg { create_err: None, ..wr.clone() }, ..s.clone() });
         }
     }
     match &s.work {
